@@ -680,15 +680,24 @@ def gen_vec_case(rng, k=None):
     if rng.random() < 0.25 and not (k is not None and k < 11):
         # a slice bound given by an integer constant: TypeError at compile time until D153 (direct evaluation works)
         nv = rng.randint(2, 3)
-        s, n = rng.choice([(f"index_range(v, {a}, n)*{p} - x", nv - a), (f"index_range(w, 1, n+1) + x*{q}", nv),
-                           (f"index_range(v, n - 2, n)*{c1} - index_range(w,{b},{b + 2})", 2)])
+        tpl = rng.randrange(3)
+        if tpl == 0:
+            s, n, nv = f"index_range(v, {a}, n)*{p} - x", 2, a + 2
+        elif tpl == 1:
+            s, n = f"index_range(w, 1, n+1) + x*{q}", nv
+        else:
+            s, n = f"index_range(v, n - 2, n)*{c1} - index_range(w,{b},{b + 2})", 2
         ints = {"n": nv}
         b_err = None if "D153" in FIXED else "TypeError"
+    fg = None
+    if not ints and not (k is not None and k < 11) and rng.random() < 0.08:
+        # recorded finding F6: a slice of exactly one element written into a one-element state variable (ValueError, loud)
+        s, n, fg = f"index_range(v, {a}, {a + 1})*{p} - x", 1, "no_unit_slice"
     scal = {p: dy_val(rng), q: dy_val(rng)}
     vecs = {"v": [dy_val(rng) for _ in range(4)], "w": [dy_val(rng) for _ in range(4)]}
     mats = {"A": [[dy_val(rng) for _ in range(3)] for _ in range(3)]}
     x0 = [dy_val(rng) for _ in range(max(n, 1))]
-    return dict(kind="vec", eq=f"x' = {s}", s=s, n=n, scal=scal, vecs=vecs, mats=mats, x0=x0, ints=ints, b_err=b_err)
+    return dict(kind="vec", eq=f"x' = {s}", s=s, n=n, scal=scal, vecs=vecs, mats=mats, x0=x0, ints=ints, b_err=b_err, finding_guard=fg)
 
 
 CONSTS = ["3/8", "1/(2*4)", "2^-3", "2**-2*3", "0.75*0.5", "(1+2)/4", "3/8 - 1/4", "-5/16", "1/4 + 1/8", "(3/2)^2/2", "7/2^3", "10/4",
@@ -973,7 +982,9 @@ def compare_vec(ctx, cases, outs, tag):
     if terms:
         l = coq_lists(ctx, f"c05_vec_{tag}", f"Definition cases : list vitem := {clist(terms)}.\n", ["mismatches ok_vitem cases"])
         bad += [idx[j] for j in l[0]]
-    return sorted(bad)
+    g = coq_lists(ctx, f"c05_vecg_{tag}", f"Definition ss : list string := {clist([cstr(c['s']) for c in cases])}.\n",
+                  ["mismatches (fun s => guard_unit_slice (s2l s)) ss"])[0]
+    return sorted(bad), g
 
 
 def coq_reading(ctx, strings, tag):
@@ -1039,6 +1050,8 @@ def witness_fails(ctx, f):
         return crashed_expr(o) or bool(compare_expr(ctx, [c], [o], "wit")[0])
     if c["kind"] == "call":
         return bool(compare_call(ctx, [c], [o], "wit")[0])
+    if c["kind"] == "vec":
+        return bool(compare_vec(ctx, [c], [o], "wit")[0])
     return isinstance(o, dict)
 
 
@@ -1123,7 +1136,10 @@ def check(ctx):
     # --- index helpers on vectors / matrices, vector-valued right-hand sides, both paths
     iv = [i for i in K("vec") if i not in crashed]
     if iv:
-        b = compare_vec(ctx, [cases[i] for i in iv], [outs[i] for i in iv], "main")
+        b, g = compare_vec(ctx, [cases[i] for i in iv], [outs[i] for i in iv], "main")
+        assert sorted(g) == [j for j, i in enumerate(iv) if cases[i].get("finding_guard") == "no_unit_slice"], "guard no_unit_slice: Coq and generator disagree"
+        for j in g:
+            guard_viol[iv[j]] = ["no_unit_slice"]
         for j in b:
             bad_spec.append(iv[j]); bad_impl.append(iv[j])
         ctx.note(f"vec: {len(iv)} equations with index/index_range/index_axis/index_2d on vectors and matrices "
